@@ -67,6 +67,47 @@ _HOLD_B = '''            else:
 _SPLIT_TAIL = '        boundary = b"--" + self.boundary\n\n        if self.buffer.find(boundary) == -1:\n            # No complete boundary in the buffer, but there may be\n            # a partial boundary at the end. As the boundary\n            # starts with either a nl or cr find the earliest and\n            # return up to that as data.\n            data_end = del_index = self.last_newline(data[data_start:]) + data_start\n            # If amount of data after last newline is far from\n            # possible length of partial boundary, we should\n            # assume that there is no partial boundary in the buffer\n            # and return all pending data.\n            if (len(data) - data_end) > len(b"\\n" + boundary):\n                data_end = del_index = len(data)\n            more_data = True\n        else:\n            match = self.boundary_re.search(data)\n            if match is not None:\n                if match.group(1).startswith(b"--"):\n                    self.state = State.EPILOGUE\n                else:\n                    self.state = State.PART\n                data_end = match.start()\n                del_index = match.end()\n            else:\n                data_end = del_index = self.last_newline(data[data_start:]) + data_start\n            more_data = match is None\n\n        return bytes(data[data_start:data_end]), del_index, more_data\n\n\n'
 _SPLIT_TAIL_EARLY_RETURNS = '        boundary = b"--" + self.boundary\n\n        if self.buffer.find(boundary) == -1:\n            hold = self.last_newline(data[data_start:]) + data_start\n            if len(data) - hold > len(b"\\n" + boundary):\n                return bytes(data[data_start:]), len(data), True\n            return bytes(data[data_start:hold]), hold, True\n        found = self.boundary_re.search(data)\n        if found is None:\n            hold = self.last_newline(data[data_start:]) + data_start\n            return bytes(data[data_start:hold]), hold, True\n        if found.group(1).startswith(b"--"):\n            self.state = State.EPILOGUE\n        else:\n            self.state = State.PART\n        return bytes(data[data_start : found.start()]), found.end(), False\n\n\n'
 
+# a failed search stores its window through a small helper that takes the tail length
+_WINDOW_PREAMBLE = """                self._search_position = max(
+                    0, len(self.buffer) - len(self.boundary) - SEARCH_EXTRA_LENGTH
+                )
+"""
+_WINDOW_PART = "                self._search_position = max(0, len(self.buffer) - SEARCH_EXTRA_LENGTH)\n"
+_TAIL_HELPER = """    def _keep_tail(self, keep: int) -> None:
+        self._search_position = max(0, len(self.buffer) - keep)
+
+    def _parse_headers(self, data: bytes) -> Headers:"""
+# ... or the position itself
+_POS_HELPER = """    def _resume_at(self, position: int) -> None:
+        self._search_position = max(0, position)
+
+    def _parse_headers(self, data: bytes) -> Headers:"""
+_ANCHOR = """        try:
+            last_nl = data.rindex(b"\\n")
+        except ValueError:
+            last_nl = len(data)
+        try:
+            last_cr = data.rindex(b"\\r")
+        except ValueError:
+            last_cr = len(data)
+
+        return min(last_nl, last_cr)
+"""
+_ANCHOR_RFIND_IFEXP = """        end = len(data)
+        last_nl = at if (at := data.rfind(b"\\n")) >= 0 else end
+        at = data.rfind(b"\\r")
+        return min(last_nl, end if at < 0 else at)
+"""
+_ANCHOR_RFIND_EARLY = """        nl, cr = data.rfind(b"\\n"), data.rfind(b"\\r")
+        if nl == -1:
+            nl = len(data)
+        if cr != -1:
+            return min(cr, nl)
+        return min(nl, len(data))
+"""
+_CHUNK_LOOP = "    while True:\n        data = read(size)\n\n        if not data:\n            break\n\n        yield data\n"
+_HOLD_A = "            data_end = del_index = self.last_newline(data[data_start:]) + data_start\n            # If amount of data"
+
 MUTANTS = [
     # R1.1 ------------------------------------------------------------------
     {"name": "search-extra-length-2", "expect": "R1.1", "edits": [(M, "SEARCH_EXTRA_LENGTH = 8", "SEARCH_EXTRA_LENGTH = 2")]},
@@ -121,6 +162,26 @@ MUTANTS = [
     {"name": "first-call-releases-up-to-last-line-break-without-looking", "expect": "R1.6", "edits": [
         (M, '        boundary = b"--" + self.boundary\n\n        if self.buffer.find(boundary) == -1:',
             '        if start:\n            held = self.last_newline(data[data_start:]) + data_start\n            return bytes(data[data_start:held]), held, True\n\n        boundary = b"--" + self.boundary\n\n        if self.buffer.find(boundary) == -1:')]},
+    # generalised shapes still catch the defect ---------------------------------
+    {"name": "window-through-helper-too-short-for-blank-line", "expect": "R1.1", "edits": [
+        (M, _WINDOW_PREAMBLE, "                self._keep_tail(len(self.boundary) + SEARCH_EXTRA_LENGTH)\n"),
+        (M, _WINDOW_PART, "                self._keep_tail(2)\n"),
+        (M, "    def _parse_headers(self, data: bytes) -> Headers:", _TAIL_HELPER)]},
+    {"name": "position-through-helper-forgets-boundary-length", "expect": "R1.1", "edits": [
+        (M, _WINDOW_PREAMBLE, "                self._resume_at(len(self.buffer) - SEARCH_EXTRA_LENGTH)\n"),
+        (M, _WINDOW_PART, "                self._resume_at(len(self.buffer) - SEARCH_EXTRA_LENGTH)\n"),
+        (M, "    def _parse_headers(self, data: bytes) -> Headers:", _POS_HELPER)]},
+    {"name": "walrus-reader-short-read-ends-input", "expect": "R1.3", "edits": [
+        (F, _CHUNK_LOOP, "    while data := read(size):\n        yield data\n\n        if len(data) < size:\n            break\n")]},
+    {"name": "walrus-reader-stops-on-small-chunk", "expect": "R1.3", "edits": [
+        (F, _CHUNK_LOOP, "    while len(data := read(size)) > 1:\n        yield data\n")]},
+    # R1.7 ------------------------------------------------------------------
+    {"name": "hold-back-offset-forgotten", "expect": "R1.7", "edits": [
+        (M, _HOLD_A, "            data_end = del_index = self.last_newline(data[data_start:])\n            # If amount of data")]},
+    {"name": "hold-back-over-whole-buffer-in-lookalike-branch", "expect": "R1.7", "edits": [
+        (M, _HOLD_B, "            else:\n                data_end = del_index = self.last_newline(data)\n            more_data = match is None\n")]},
+    {"name": "hold-back-one-before-region-start", "expect": "R1.7", "edits": [
+        (M, _HOLD_A, "            data_end = del_index = self.last_newline(data[data_start:]) + data_start - 1\n            # If amount of data")]},
 ]
 
 TWINS = [
@@ -151,4 +212,27 @@ TWINS = [
         (F, "            event = parser.next_event()\n            while not isinstance(event, (Epilogue, NeedData)):\n", "            while True:\n                event = parser.next_event()\n                if isinstance(event, (Epilogue, NeedData)):\n                    break\n"),
         (F, "\n                event = parser.next_event()\n\n        return self.cls(fields), self.cls(files)", "\n        return self.cls(fields), self.cls(files)")]},
     {"name": "chunk-reader-len-test", "edits": [(F, "        if not data:\n            break\n", "        if len(data) == 0:\n            break\n")]},
+    {"name": "window-through-helper-taking-the-tail-length", "edits": [
+        (M, _WINDOW_PREAMBLE, "                self._keep_tail(len(self.boundary) + SEARCH_EXTRA_LENGTH)\n"),
+        (M, _WINDOW_PART, "                self._keep_tail(keep=SEARCH_EXTRA_LENGTH)\n"),
+        (M, "    def _parse_headers(self, data: bytes) -> Headers:", _TAIL_HELPER)]},
+    {"name": "window-through-helper-taking-the-position", "edits": [
+        (M, _WINDOW_PREAMBLE, "                self._resume_at(len(self.buffer) - (SEARCH_EXTRA_LENGTH + len(self.boundary)))\n"),
+        (M, _WINDOW_PART, "                self._resume_at(len(self.buffer) - SEARCH_EXTRA_LENGTH)\n"),
+        (M, "    def _parse_headers(self, data: bytes) -> Headers:", _POS_HELPER)]},
+    {"name": "anchor-rfind-conditional-expressions-walrus", "edits": [(M, _ANCHOR, _ANCHOR_RFIND_IFEXP)]},
+    {"name": "anchor-rfind-tuple-assignment-early-return", "edits": [(M, _ANCHOR, _ANCHOR_RFIND_EARLY)]},
+    {"name": "anchor-compares-the-two-positions-by-hand", "edits": [
+        (M, "        return min(last_nl, last_cr)\n", "        if last_cr > last_nl:\n            return last_nl\n        return last_cr\n")]},
+    {"name": "window-through-helper-that-clamps-with-an-if", "edits": [
+        (M, _WINDOW_PREAMBLE, "                self._keep_tail(len(self.boundary) + SEARCH_EXTRA_LENGTH)\n"),
+        (M, _WINDOW_PART, "                self._keep_tail(SEARCH_EXTRA_LENGTH)\n"),
+        (M, "    def _parse_headers(self, data: bytes) -> Headers:",
+            "    def _keep_tail(self, keep: int) -> None:\n        position = len(self.buffer) - keep\n        if position < 0:\n            position = 0\n        self._search_position = position\n\n    def _parse_headers(self, data: bytes) -> Headers:")]},
+    {"name": "chunk-reader-walrus-loop", "edits": [(F, _CHUNK_LOOP, "    while data := read(size):\n        yield data\n")]},
+    {"name": "chunk-reader-walrus-compare", "edits": [(F, _CHUNK_LOOP, "    while (data := read(size)) != b\"\":\n        yield data\n")]},
+    {"name": "payload-start-default-then-overwritten-and-region-alias", "edits": [
+        (M, "        if start:\n            match = LINE_BREAK_RE.match(data)\n            data_start = t.cast(t.Match[bytes], match).end()\n        else:\n            data_start = 0\n",
+            "        data_start = 0\n        if start:\n            match = LINE_BREAK_RE.match(data)\n            data_start = t.cast(t.Match[bytes], match).end()\n"),
+        (M, _HOLD_A, "            tail = data[data_start:]\n            data_end = del_index = data_start + self.last_newline(tail)\n            # If amount of data")]},
 ]
